@@ -8,6 +8,44 @@
 # rule: how cases are generated and what makes one non-trivial / distinct (copied into evidence)
 
 PROPS = {
+    "C01": {
+        "level": "exploration",
+        "rule": "rapid generates action lists (8..40 actions, thorough ..110) over 2-3 go-git replicas sharing a bare remote: "
+                "new bug, edit with 1..4 operations of any kind by any author (several authors in one staging area give several "
+                "commits), push, pull; then pull+push rounds until no ref changes. Oracle: every bug readable on every replica, "
+                "identical operation-id order and compiled snapshot everywhere, id set = everything committed (model), refs equal "
+                "the remote's. Non-trivial: some final history holds a merge commit. Distinct: replica count + multiset of merge "
+                "shapes (commits exclusive to each parent) + operation-kind multiset.",
+        "assumptions": ["identities are exchanged before the bugs that reference them (as RepoCache.Pull/Push do)",
+                        "a rejected non-fast-forward push is a legal outcome"],
+        "tests": [{"name": "TestC01Convergence", "quick": 40, "shards_quick": 4, "thorough": 300, "shards": 16}],
+    },
+    "C02": {
+        "level": "exploration",
+        "rule": "same generated histories as C01; the monitored step is every pull (fetch + identity merge + bug merge). Oracle per "
+                "pull: what was readable stays readable, pre is a subsequence of post, post = pre U remote (remote read on the bare "
+                "repository itself), remote-only bugs are created, report new/nothing/updated agrees with ref movement and op sets, "
+                "invalid never occurs, the entity handed back lists exactly the stored merged operations, and a later edit through "
+                "that handle never removes stored operations. Non-trivial: a pull that fast-forwarded (s4) or merged diverged "
+                "branches (s5) an existing bug. Distinct: multiset of merge scenarios with branch lengths.",
+        "assumptions": ["single-threaded harness: the bare remote equals the just-fetched state"],
+        "tests": [{"name": "TestC02Pull", "quick": 60, "shards_quick": 4, "thorough": 400, "shards": 16}],
+    },
+    "C03": {
+        "level": "exploration",
+        "rule": "Domain A (TestC03Histories): every replica state reached by the C01 generator, checked after every action: real "
+                "order = packs sorted by (edit time, sha256 of the ops blob) read by an independent parser of the git layout, no "
+                "operation before one of an ancestor commit, written clocks strictly increase along edges, re-read and re-open "
+                "agree. Domain B (TestC03Crafted): DAGs of 1..10+ packs written directly in the documented layout with consistent "
+                "clocks (equal edit times on concurrent packs included) or one injected defect (15 kinds); a reference validator "
+                "computed from the stored DAG decides accept/refuse; accepted DAGs must read in reference order on go-git and on "
+                "the in-memory backend. Non-trivial: a fork/merge, an equal-edit-time pair or an injected defect. Distinct: DAG "
+                "shape + defect + verdict (B), merge shapes (A).",
+        "assumptions": ["shapes the statement is silent about (create clock on a non-root, a large hop onto a merge commit, zero "
+                        "edit time on a root) are expected to be accepted or are not asserted"],
+        "tests": [{"name": "TestC03Crafted", "quick": 1500, "thorough": 6000, "shards": 8},
+                  {"name": "TestC03Histories", "quick": 30, "shards_quick": 4, "thorough": 200, "shards": 8}],
+    },
     "C10": {
         "level": "exploration",
         "rule": "rapid generates operation lists (create + 0..39 operations, thorough 0..399) over all 8 kinds with "
@@ -44,6 +82,29 @@ PROPS = {
 
 # Text for MANIFEST.json, per claimed property.
 MANIFEST_TEXT = {
+    "C01": {
+        "technique": "stateful property-based testing (rapid): generated multi-replica histories + sync to quiescence, convergence invariant vs a history model",
+        "level_text": "Generated-input search over edit/push/pull histories of 2-3 real go-git repositories and a bare remote; the oracle "
+                      "is an invariant over the history (identical order and state everywhere, nothing lost or invented). Exploration: "
+                      "hundreds of histories per run, most with unequal-length diverged merges; failures shrink to a short action list.",
+        "design_ref": "DESIGN.md §4 C01",
+        "level_note": "Trusted: go-git transport between local repositories; the history model (ids of committed operations).",
+    },
+    "C02": {
+        "technique": "stateful property-based testing (rapid): every pull of generated histories checked against pre/remote/post operation sets read independently",
+        "level_text": "Each pull of generated multi-replica histories is checked against set/subsequence relations between the local state "
+                      "before, the remote state and the local state after, and against the reported merge status and returned entity.",
+        "design_ref": "DESIGN.md §4 C02",
+        "level_note": "Trusted: reading the bare remote right after the fetch as 'what the remote holds'.",
+    },
+    "C03": {
+        "technique": "property-based testing (rapid): differential against an independent on-disk reader/reference order; crafted DAGs with injected clock/root/merge defects vs a reference validator",
+        "level_text": "Generated histories and hand-crafted commit DAGs in the documented layout are read by the real code and by an "
+                      "independent parser; order, causality, determinism across re-read/re-open/backends and refusal of bad histories "
+                      "are compared. Exploration with shrinking.",
+        "design_ref": "DESIGN.md §4 C03",
+        "level_note": "Trusted: the independent reader (internal/ondisk) and the reference validator as readings of the statement and doc/model.md.",
+    },
     "C10": {
         "technique": "property-based testing (rapid): generated operation sequences vs an independent reference interpreter; metamorphic and recompile relations",
         "level_text": "Generated-input search: thousands of generated operation sequences per run are compiled by the real code and "
